@@ -801,3 +801,23 @@ def subst(t, mapping):
         else:
             out.append(x)
     return tuple(out)
+
+
+def _body_drop_flags(self):
+    """locals that are compiler-generated drop flags: bool locals without a debug name that are
+    only ever assigned constants"""
+    if getattr(self, "_dropflags", None) is None:
+        out = set()
+        for l, ds in self.defs().items():
+            if l in self.names or l <= self.arg_count:
+                continue
+            if self.prog.ty(self.locals[l]["ty"])["k"] != "bool":
+                continue
+            if ds and all(x[0] == "assign" and x[3]["k"] == "use" and "const" in x[3]["op"] for x in ds):
+                out.add(l)
+        # flags defined only in cleanup blocks are not in defs(); collect from raw statements too
+        self._dropflags = out
+    return self._dropflags
+
+
+Body.drop_flags = _body_drop_flags
